@@ -462,5 +462,33 @@ def rule_i(prog, rep):
     c07.rule_e(prog, Proxy(rep, 'C03.i'))
 
 
-RULES = [('C03.h', rule_h), ('C03.i', rule_i), ('C03.a', rule_a), ('C03.b', rule_b), ('C03.c', rule_c), ('C03.d', rule_d), ('C03.e', rule_e), ('C03.f', rule_f),
+def rule_j(prog, rep):
+    rep.rule('C03.j', 'T7', "the subscription the client asked for is the one that is made: V0::subscribe / psubscribe call the core with "
+             "the session's client id, the request's transaction id, key / pattern and `unique` flag, and live_only = "
+             "msg.live_only.unwrap_or(false) (a request that does not mention liveOnly gets the snapshot)")
+    crate = prog.crate(WB)
+    for hname, api, keyfield in (('subscribe', 'subscribe', 'key'), ('psubscribe', 'psubscribe', 'request_pattern')):
+        f = crate.fn(f'{V0}::{hname}')
+        b = Bindings(crate, f)
+        calls = [nd for nd, a in crate.walk_fn(f) if nd.get('k') == 'call' and short(callee(nd)) == api and
+                 ('WbApi' in callee(nd) or 'CloneableWbApi' in callee(nd) or 'WbApi' in str(nd.get('impl') or ''))]
+        problems = []
+        if len(calls) != 1:
+            problems.append(f'{len(calls)} core calls')
+        else:
+            a = calls[0]['args']
+            want = [{'param(self).client_id'}, {'param(msg).transaction_id'}, {f'param(msg).{keyfield}'}, {'param(msg).unique'}]
+            for i_, w in enumerate(want):
+                if b.origins(a[1 + i_]) != w:
+                    problems.append(f'operand {i_} <- {sorted(b.origins(a[1 + i_]))}, expected {sorted(w)}')
+            lo = b.origins(a[5])
+            if lo != {'param(msg).live_only', 'lit(False)(default)'}:
+                problems.append(f'live_only <- {sorted(lo)}, expected msg.live_only with default false')
+        if problems:
+            rep.violation('C03.j', f'V0::{hname}', f.loc, '; '.join(problems), key=f'C03.j/{hname}/' + '|'.join(p_.split(' <-')[0] for p_ in problems))
+        else:
+            rep.ok('C03.j', f'V0::{hname}', loc(f, calls[0]), f'(client id, msg.transaction_id, msg.{keyfield}, msg.unique, msg.live_only.unwrap_or(false))')
+
+
+RULES = [('C03.j', rule_j), ('C03.h', rule_h), ('C03.i', rule_i), ('C03.a', rule_a), ('C03.b', rule_b), ('C03.c', rule_c), ('C03.d', rule_d), ('C03.e', rule_e), ('C03.f', rule_f),
          ('C03.g', rule_g)]
